@@ -35,7 +35,7 @@ MUTS = {
     "M19_v0_inverse_transform": ("write_font.py", "            glyph_name = _create_transformed_glyph(\n                color_glyph, paint_glyph, context.transform\n            ).name", "            glyph_name = _create_transformed_glyph(\n                color_glyph, paint_glyph, context.transform.inverse()\n            ).name", ["C03"]),
     "M20_inline_shared_component": ("write_font.py", "            and glyph_uses[parent_glyph.components[0].baseGlyph] == 1\n", "            and glyph_uses[parent_glyph.components[0].baseGlyph] >= 1\n", ["C03"]),
     "M21_no_extents": ("write_font.py", "    if rectArea(bounds) == 0:\n        return\n", "    return\n", ["C03"]),
-    "M22_skip_ligature_for_hashed_name": ("features.py", "        target = glyph_name(rgi)\n", "        target = glyph_name(rgi)\n        if len(\"_\".join(\"%x\" % c for c in rgi)) > 63:\n            continue\n", ["C04"]),
+    "M22_skip_ligature_for_hashed_name": ("features.py", "        target = custom_names.get(tuple(rgi)) or glyph_name(rgi)\n", "        target = custom_names.get(tuple(rgi)) or glyph_name(rgi)\n        if len(\"_\".join(\"%x\" % c for c in rgi)) > 63:\n            continue\n", ["C04"]),
     "M23_blanks_only_when_no_single": ("write_font.py", "    need_blanks = all_codepoints - direct_mapped_codepoints\n", "    need_blanks = (all_codepoints - direct_mapped_codepoints) if not direct_mapped_codepoints else set()\n", ["C04"]),
     "M25_svg_gid_not_updated": ("svg.py", "    _ensure_groups_grouped_in_glyph_order(color_glyphs, ttfont, reuse_groups)\n", "    pass\n", ["C04", "C02", "C07"]),
     "M26_fea_reverse_length_order": ("features.py", "    for rgi in sorted(rgi_sequences):\n", "    for rgi in sorted(rgi_sequences, key=lambda r: (-len(r), r)):\n", ["C04"]),
@@ -169,13 +169,23 @@ def main():
         return
     if a[0] == "all":
         only = None
+        start = a[a.index("--from") + 1] if "--from" in a else None
         if "--props" in a:
             only = set(a[a.index("--props") + 1].split(","))
         for name in MUTS:
+            if start is not None:
+                if name != start:
+                    continue
+                start = None
             props = [p for p in MUTS[name][3] if only is None or p in only]
             if not props:
                 continue
-            for p, (st, kinds, tail) in run(name, props).items():
+            try:
+                res = run(name, props)
+            except SystemExit as e:
+                print("%-34s PATTERN-ERROR %s" % (name, e), flush=True)
+                continue
+            for p, (st, kinds, tail) in res.items():
                 print("%-34s %s %-10s %s %s" % (name, p, st, ",".join(kinds), tail), flush=True)
 
 
